@@ -232,6 +232,25 @@ pub fn run_fuzz_campaign(id: &str, root: &Path, seed: u64, runs_per_job: u64, jo
                 if kind == "timeout" || kind == "oom" {
                     return Ok(json!({"fuzz": {"inconclusive": format!("{} in target {}: {}", kind, target, summary)}}));
                 }
+                let tail: String = log.lines().rev().take(6).collect::<Vec<_>>().into_iter().rev().collect::<Vec<_>>().join(" | ").chars().take(600).collect();
+                if data.is_empty() {
+                    // the fuzzer process ended unsuccessfully but left neither an artifact nor an oracle
+                    // report (killed from outside, resource trouble ...): nothing to judge
+                    return Ok(json!({"fuzz": {"inconclusive": format!("target {} job {} exited with {:?} without an artifact; log tail: {}", target, j, st, tail)}}));
+                }
+                // confirm: the artifact alone must kill a fresh fuzzer process again
+                let again = Command::new(&bin)
+                    .arg(art.join(std::fs::read_dir(&art).ok().and_then(|mut d| d.find_map(|e| e.ok().map(|e| e.file_name()).filter(|n| n.to_string_lossy().starts_with("crash-")))).unwrap_or_default()))
+                    .env("VERIF_ORACLE", id)
+                    .env("EPVERIF_ROOT", root)
+                    .env("ASAN_OPTIONS", "detect_leaks=0:abort_on_error=1")
+                    .stdin(Stdio::null())
+                    .stdout(Stdio::null())
+                    .stderr(Stdio::null())
+                    .status();
+                if matches!(again, Ok(s2) if s2.success()) {
+                    return Ok(json!({"fuzz": {"inconclusive": format!("target {} job {} died ({}) but its artifact passes in a fresh process; log tail: {}", target, j, summary, tail)}}));
+                }
                 let what: String = summary.split("panicked at: ").nth(1).unwrap_or(&summary).chars().take(140).collect();
                 return Err(Failure::new(format!("{}|fuzz-{}|{}", id, kind, what), "worker survives (libFuzzer + AddressSanitizer)", format!("libFuzzer target {} died: {}", target, summary), concretize(target, &data)));
             }
